@@ -19,7 +19,7 @@ func init() {
 	run.Register(&run.Check{
 		ID:    "C11",
 		Level: "exploration",
-		Rule: "cases: batches of random programs (<= 12 steps) over a pool of 4-6 live values of the REAL common.ConnectionSet / common.PortSet types (reached through the verif alias export), built as the code builds them (MakeConnectionSet(true|false), single-protocol sets from ranges / single ports / the full range / named ports) and combined with Union, Intersection, Subtract, Copy; after every step every pool member is compared with a three-bitset model through ProtocolsAndPortsMap and Contains, non-receiver members must be unchanged (deep snapshots), a probe mutation of one member must not show through any other (aliasing), equal denotations must be Equal and print identically, the full set must be flagged and printed 'All Connections', ContainedIn/Equal/IsEmpty must agree with the model; for values carrying named-port bookkeeping only the clauses the statement makes are checked (containment clause, the difference law - a non-empty A minus B is never contained in B -, the union law - B is contained in A united with B -, the intersection law - A contained in B is left unchanged by intersecting it with B -, no operand mutation, no aliasing, Copy/Equal/String consistency, exact numeric part); " +
+		Rule: "cases: batches of random programs (<= 12 steps) over a pool of 4-6 live values of the REAL common.ConnectionSet / common.PortSet types (reached through the verif alias export), built as the code builds them (MakeConnectionSet(true|false), single-protocol sets from ranges / single ports / the full range / named ports) and combined with Union, Intersection, Subtract, Copy; after every step every pool member is compared with a three-bitset model through ProtocolsAndPortsMap and Contains, non-receiver members must be unchanged (deep snapshots), a probe mutation of one member must not show through any other (aliasing), equal denotations must be Equal and print identically, the full set must be flagged and printed 'All Connections', ContainedIn/Equal/IsEmpty must agree with the model; for values carrying named-port bookkeeping only the clauses the statement makes are checked (containment clause, the difference law - a non-empty A minus B is never contained in B -, the union law - B is contained in A united with B -, the intersection laws - A contained in B is left unchanged by intersecting it with B, the full set intersected with B becomes B -, no operand mutation, no aliasing, Copy/Equal/String consistency, exact numeric part); " +
 			"non-trivial = a program in which at least one operation changed its receiver and at least one comparison query was answered both ways; distinct = program text hash",
 		Assumptions:       []string{"operands are the values reachable from MakeConnectionSet and single-protocol sets by the listed operations (a three-protocol value assembled by raw AddConnection calls and never passed through Union is not an operand)", "ports concentrate on {1,2,79,80,81,65534,65535} and a few ranges so that adjacency and merging happen"},
 		NumCases:          func(tier string, _ int64) int { return tierN(tier, 400, 20000) },
@@ -225,9 +225,12 @@ func runC11(c *run.Ctx) {
 			r.Ev("op_"+op, 1)
 			trace = append(trace, fmt.Sprintf("%s(%d,%d)", op, i, j))
 			namedBefore := namedInvolved(a.real) || namedInvolved(b.real)
-			var containedCopy *connlist.VerifConnectionSet
+			var containedCopy, containingCopy *connlist.VerifConnectionSet
 			if op == "Intersection" && namedBefore && i != j && a.real.ContainedIn(b.real) {
 				containedCopy = a.real.Copy() // A contained in B: intersecting with B must leave A as it is
+			}
+			if op == "Intersection" && namedBefore && i != j && a.real.IsAllConnections() {
+				containingCopy = b.real.Copy() // A is the full set: A intersected with B must become B, named ports and all
 			}
 			switch op {
 			case "Union":
@@ -267,6 +270,12 @@ func runC11(c *run.Ctx) {
 				r.Ev("named_intersection_law_checked", 1)
 				if !a.real.Equal(containedCopy) {
 					fail("denote", "intersection-with-superset-changes-set", "A unchanged by intersecting it with a set that contains it", snapshot(containedCopy)+" became "+snapshot(a.real)+" after intersecting with "+snapshot(b.real))
+				}
+			}
+			if containingCopy != nil {
+				r.Ev("named_intersection_law_checked", 1)
+				if !a.real.Equal(containingCopy) {
+					fail("denote", "intersection-of-the-full-set-is-not-the-operand", "the full set intersected with B equals B", snapshot(a.real)+" where B was "+snapshot(containingCopy))
 				}
 			}
 			if namedBefore && op == "Union" && i != j {
